@@ -150,6 +150,12 @@ func reads(c pgcheck.ColCfg, k int, v []byte, thorough bool) []pgcheck.Stmt {
 		&pgproto3.Parse{Name: "", Query: "select id, c from t"}, &pgproto3.Bind{}, &pgproto3.Execute{},
 		&pgproto3.Sync{}}
 	out = append(out, pgcheck.Mk("ext-pipelined-three-selects", "", false, true, pipe))
+	// a driver with a fetch size: Execute with a row limit is answered with PortalSuspended; the next
+	// statement of the session (other column order) is still answered by its own columns
+	fetch := []pgproto3.FrontendMessage{
+		&pgproto3.Parse{Name: "", Query: "select id, c from t"}, &pgproto3.Bind{}, &pgproto3.Describe{ObjectType: 'P'}, &pgproto3.Execute{MaxRows: 1}, &pgproto3.Sync{}}
+	fetch = append(fetch, sess.Q("select c, id from t")...)
+	out = append(out, pgcheck.Mk("ext-fetch-size-1-then-select", "", false, true, fetch))
 	if c.Search {
 		lit := pgcheck.Literals(c.Shadow, v)[0]
 		out = append(out,
